@@ -206,18 +206,19 @@ func (r *Runtime) newPromiseReactionJob(reaction *promiseReaction, argument Valu
 				fulfill = true
 			}
 		} else {
-			if tracker := r.asyncContextTracker; tracker != nil {
-				tracker.Resumed(reaction.asyncCtx)
-			}
-			ex := r.vm.try(func() {
-				handlerResult = r.callJobCallback(reaction.handler, _undefined, argument)
-				fulfill = true
-			})
+			ex := func() *Exception {
+				if tracker := r.asyncContextTracker; tracker != nil {
+					tracker.Resumed(reaction.asyncCtx)
+					// (also when the handler is interrupted or overflows the stack)
+					defer tracker.Exited()
+				}
+				return r.vm.try(func() {
+					handlerResult = r.callJobCallback(reaction.handler, _undefined, argument)
+					fulfill = true
+				})
+			}()
 			if ex != nil {
 				handlerResult = ex.val
-			}
-			if tracker := r.asyncContextTracker; tracker != nil {
-				tracker.Exited()
 			}
 		}
 		if reaction.capability != nil {
